@@ -62,6 +62,7 @@ def run(ctx):
         import wiring
         ctx.guard(wiring.builders, ctx, cfg, fs, 'N.name-first', r'^(command|params::<impl info::OptionParser<T>>::command|params::ParseCommand::<P>::(short|long|adjacent|help))$')
         ctx.guard(matched, ctx, cfg, fs)
+        ctx.guard(own_level_invariant, ctx, cfg, fs)
         ctx.guard(keep_only, ctx, lambda: c07.table(ctx, cfg, fs), lambda o: 'depth=Less' in o.key or 'depth=Greater' in o.key, 'D.depth')
         ctx.guard(keep_only, ctx, lambda: c10.final(ctx, cfg, fs), lambda o: True, 'F.final')
         ctx.guard(keep_only, ctx, lambda: c07.fork(ctx, cfg, fs), lambda o: 'ParseOrElse' in o.key, 'D.depth')
@@ -70,6 +71,42 @@ def run(ctx):
         ctx.guard(keep_only, ctx, lambda: c12.walker_rules(ctx, cfg, fs, 'G.registry', {'collect_shorts': c12.WALKERS['collect_shorts']}), lambda o: True, 'G.registry')
         ctx.guard(keep_only, ctx, lambda: c05.scope_restore(ctx, cfg, fs), lambda o: 'ParseCommand' in o.key, 'R.scope-restore')
         ctx.guard(keep_only, ctx, lambda: c10.usage_fallback(ctx, cfg, ctx.look(fs.one(r'^info::OptionParser::<T>::run_subparser$')), 'U.usage-fallback'), lambda o: True, 'U.usage-fallback')
+
+def own_level_invariant(ctx, cfg, fs):
+    """the "positionals and commands go last" rule of a level is checked PER LEVEL: when positional_invariant_check descends into a
+    command's own meta it starts from a clean slate (`false`), whatever stood in front of the command one level up - otherwise asking
+    for help of (or above) a subcommand that follows a positional panics instead of describing it."""
+    b = ctx.look(fs.one(r'^meta::Meta::positional_invariant_check::go$'))
+    rec = [c for c in b.calls() if c.names and c.names[0] == b.path]
+    isw = [s_ for s_ in switches(b) if s_.kind == 'enum' and s_.enum == 'item::Item' and s_.target('Command') is not None]
+    under = []
+    for c in rec:
+        for s_ in isw:
+            t = s_.target('Command')
+            others = [x for o_, x in s_.edges.items() if x != t]
+            if c.bb in reachable_edges(b, t, avoid=others + [s_.b]) and not any(c.bb in reachable_edges(b, o_, avoid=[s_.b]) for o_ in others):
+                under.append(c)
+    ok = bool(under)
+    desc = []
+    for c in under:
+        # the flag handed down: `&mut local` whose value is the constant false
+        vals = set()
+        for r in provenance(b, c.args[1], c.bb, 'term', through=None):
+            vals.add(('const', r.what) if r.kind == 'const' else (r.kind, r.what))
+        if not vals:
+            pl = op_place(c.args[1])
+            for (_, _, k, st) in (reaching_defs(b, pl[0], c.bb, 'term') if pl else []):
+                if k == 'assign' and st['rv']['k'] == 'ref':
+                    l_ = st['rv']['place'][0]
+                    for (_, _, k2, st2) in reaching_defs(b, l_, c.bb, 'term'):
+                        if k2 == 'assign' and st2['rv']['k'] == 'use' and op_const(st2['rv']['op']) is not None:
+                            vals.add(('const', op_const(st2['rv']['op']).get('v')))
+                        else:
+                            vals.add(('other', k2))
+        desc.append(sorted(map(str, vals)))
+        ok = ok and vals == {('const', False)}
+    ctx.ob('L.own-level', 'positional_invariant_check:command-starts-clean', ok,
+           'descending into a command\'s own items starts with "no positional seen yet" = false (%d call(s): %s)' % (len(under), desc), where=b.where(), cfg=cfg)
 
 def keep_only(ctx, fn, pred, rule):
     before = len(ctx.obs)
@@ -197,7 +234,16 @@ def matched(ctx, cfg, fs):
         en_ = provenance(b, r.extra['fields'][names.index('end')], r.site[0], r.site[1], through=None)
         s_ok = bool(st_) and all(q.kind == 'param' and q.what == 'args' and q.path == ['current', 'as Some', '0'] for q in st_)
         e_ok = bool(en_) and all(q.kind == 'call' and q.call.is_(r'State::scope$') and q.path == ['end'] and scopes.state_id(b, q.call.args[0], q.call.bb) == 'args' for q in en_)
-        ok = s_ok and e_ok and c.bb in matched_only and all(b.dominates(c.bb, r_.bb) or True for r_ in rsc)
+        # ... on the way to EVERY run of the subparser (adjacent or not): the test of `args.current` the narrowing hangs on comes before
+        # all of them, and on its Some edge none of them is reached around the narrowing
+        before_all = False
+        for (a_, t_) in b.control_deps().get(c.bb, ()):
+            if b.term(a_)['k'] != 'switch': continue
+            sw_ = Switch(b, a_)
+            if sw_.kind == 'enum' and t_ == sw_.target('Some'):
+                around_ = reachable_edges(b, t_, avoid=[c.bb])
+                before_all = all(b.dominates(a_, r_.bb) and r_.bb not in around_ for r_ in rsc) and bool(rsc)
+        ok = s_ok and e_ok and c.bb in matched_only and before_all
         detail = 'start <- %s, end <- %s' % (sorted('%s.%s' % (q.what, '.'.join(q.path)) for q in st_), sorted('%s.%s' % (q.what if q.kind != 'call' else short(q.call.name), '.'.join(q.path)) for q in en_))
     ctx.ob('M.matched', 'ParseCommand::eval:scope-from-name-to-end', ok,
            'after the name matched the scope becomes `index of the name .. end of the enclosing scope` (%s)' % detail, where=b.where(cmdn[0].bb) if cmdn else b.where(), cfg=cfg)
